@@ -832,24 +832,11 @@ fn is_proper_prefix(a: &[u8], b: &[u8]) -> bool {
     a.len() < b.len() && b[..a.len()] == *a
 }
 
-/// Planted-error switch used once to validate the harness (see final report): when
-/// `--opt plant=floatbits` is given the float reference order compares bit patterns.
-static PLANT: std::sync::atomic::AtomicU8 = std::sync::atomic::AtomicU8::new(0);
-
-fn vcmp_p(a: &KV, b: &KV) -> Option<Ordering> {
-    if PLANT.load(std::sync::atomic::Ordering::Relaxed) == 1 {
-        if let (KV::Float(x), KV::Float(y)) = (a, b) {
-            return Some(x.to_bits().cmp(&y.to_bits()));
-        }
-    }
-    vcmp(a, b)
-}
-
 /// order / distinctness / prefix-freeness of one unordered pair
 fn pair_oracles(a: &Item, b: &Item, rep: &mut Reporter) {
     let case = || json!({"pass": "single", "a": kv2json(&a.v), "b": kv2json(&b.v)});
     let got = a.e.cmp(&b.e);
-    let want = vcmp_p(&a.v, &b.v);
+    let want = vcmp(&a.v, &b.v);
     let pt = pair_ty(&a.v, &b.v);
     match want {
         Some(w) => {
@@ -1151,10 +1138,11 @@ fn dom_f64(t: Tier) -> Vec<f64> {
     {
         let exps: Vec<u64> = match t {
             Tier::Thorough => (0..=2046u64).collect(),
-            Tier::Quick => [0u64, 1, 2, 3, 1021, 1022, 1023, 1024, 1025, 1026, 1075, 1076, 2044, 2045, 2046].into_iter().chain((0..=2046u64).step_by(97)).collect(),
+            Tier::Quick => [0u64, 1, 2, 3, 1021, 1022, 1023, 1024, 1025, 1026, 1075, 1076, 2044, 2045, 2046].into_iter().chain((0..=2046u64).step_by(16)).collect(),
         };
+        let ms: Vec<u64> = t.pick(vec![0u64, 1, 1u64 << 51, (1u64 << 52) - 1], vec![0u64, 1, 2, 1u64 << 26, 1u64 << 51, (1u64 << 51) + 1, (1u64 << 52) - 2, (1u64 << 52) - 1]);
         for e in exps {
-            for m in [0u64, 1, 1u64 << 51, (1u64 << 52) - 1] {
+            for m in ms.iter().copied() {
                 bits.push((e << 52) | m);
                 bits.push((e << 52) | m | (1u64 << 63));
             }
@@ -1374,7 +1362,7 @@ fn single_domains(t: Tier) -> Vec<(&'static str, Vec<KV>)> {
         }
     }
     d.push(("range", v));
-    d.push(("vector", strings(&dom_f32(), t.pick(2, 3)).into_iter().map(KV::Vector).collect()));
+    d.push(("vector", strings(&dom_f32(), 3).into_iter().map(KV::Vector).collect()));
     d
 }
 
@@ -2143,18 +2131,12 @@ fn valuekey_pass(rep: &mut Reporter) {
 // ---------------------------------------------------------------------------
 struct C26;
 
-fn apply_opts(ctx: &Ctx) {
-    if ctx.opt("plant") == Some("floatbits") {
-        PLANT.store(1, std::sync::atomic::Ordering::Relaxed);
-    }
-}
-
 impl Check for C26 {
     fn specs(&self) -> Vec<Spec> {
         let mut s = Spec::new(
             "C26",
             "exploration",
-            "a case is one unordered pair of values (or of 2-/3-column tuples) taken from stated finite boundary domains, evaluated on the real encoders/decoder of src/encoding/key.rs: per encodable type every pair of the type's domain (ints: 0, +-(2^k-1,2^k,2^k+1) for 12 (quick) / all 63 (thorough) k, i64 MIN/MAX+-1; floats: +-0, subnormal min/max, min normal, around 1, 2^53, 2^63, max, inf, quiet/signalling/negative NaN, thorough: every exponent x 4 mantissas x sign; text: every string of <=3 chars over {U+0,U+1,a,U+FF,U+10FFFF} (thorough <=4 over 8 chars); blob: every byte string of <=3 over {00,01,61,FE,FF} (thorough <=4 over 8 bytes); dates/times/timestamps/timestamptz/intervals/uuid/macaddr/inet/enum boundary grids; JSON scalars, arrays <=2 (3) over 12 elements, objects <=2 entries over 20 (49) key/value entries incl. empty and NUL keys; arrays <=3, tuples/composites <=2 over an 11(15)-element mixed mini-domain; domains; ranges; vectors of dimension <=2 (3) over 14 f32 classes), every int x float pair, representatives of every type against every other type, every pair of 2-column tuples over 56 values and of 3-column tuples over 14 (26) values; plus, per value, decoding with 10 trailing-byte variants. Through SQL (Database::encode_value_as_key is pub(crate)): per SQL type a table with a secondary index filled with the whole domain in scrambled order, index order read back with ORDER BY answered by SecondaryIndexScan (asc+desc), point lookups through the index for literal-capable types, a UNIQUE column accepting all distinct and rejecting all equal values, four composite (c1,c2) indexes. Distinct = distinct value pair by construction of the enumeration; non-trivial = the two values differ.",
+            "a case is one unordered pair of values (or of 2-/3-column tuples) from stated finite boundary domains, evaluated on the real encoders/decoder of src/encoding/key.rs. Per encodable type every pair (incl. self pairs) of the type's domain: ints 0, +-(2^k-1, 2^k, 2^k+1) for every k<=62, i64 MIN/MIN+1/MAX-1/MAX (thorough: also -300..300 and every value with a single non-zero byte); floats +-{0, subnormal min/max, min normal, 0.5, 1-ulp, 1, 1+ulp, 1.5, 2, 255, 256, 2^53, 2^63, 1e300, max, inf, quiet/signalling/all-ones NaN} plus +-{4 mantissas} x 143 exponents (thorough: 8 mantissas x all 2047 exponents); text: every string of <=4 chars over {U+0,U+1,a,U+FF,U+10FFFF} (thorough 8 chars); blob: every byte string of length <=4 over {00,01,61,FE,FF} (thorough 10 bytes); boundary grids for date/time/timestamp/timestamptz/interval/uuid/macaddr/inet/enum; JSON: scalars (12 numbers, 7 strings), arrays of <=2 (3) over 12 elements, objects of <=2 entries over 20 (49) key/value entries incl. empty and NUL-leading keys; arrays <=3, tuples/composites <=2 over an 11 (15)-element mixed mini-domain; domains; 196 ranges; vectors of dimension <=3 over 16 f32 classes; every int x float pair of the quick domains; representatives of every type against every other type; every pair of 2-column tuples over 56 mixed values and of 3-column tuples over 18 (32) values. Per value: append semantics, encode_value dispatcher, decode_key alone and with 10 trailing-byte variants. Through SQL (Database::encode_value_as_key is pub(crate)): per SQL type (bool, bigint, double, text, blob, date, time, timestamp, timestamptz, interval, uuid, macaddr, vector) a table with a secondary index filled with the whole domain (<=1500 values) in scrambled order, index order read back with ORDER BY answered by SecondaryIndexScan (asc+desc, all pairs of positions), point lookups through the index for literal-capable values, a UNIQUE column that must accept all distinct and reject all equal values, four composite (c1,c2) indexes. Distinct = distinct pair by construction of the enumeration; non-trivial = the two values differ.",
         );
         s.assumptions = &[
             "reference order is written from the module docs of src/encoding/key.rs: type rank = documented prefix groups; numbers: -inf < negatives < zero < positives < +inf < NaN, int 0 / float +-0 share one key and decode as Int(0); text/blob bytewise; struct-like types (timestamptz, interval, enum, domain, composite) field-wise in encoded field order; arrays/tuples/JSON arrays/objects lexicographic with a shorter prefix first; JSON kinds ranked by their documented prefixes",
@@ -2168,7 +2150,6 @@ impl Check for C26 {
     }
 
     fn run(&self, ctx: &Ctx, rep: &mut Reporter) {
-        apply_opts(ctx);
         let tier = ctx.tier;
         let mut block = 0u64;
         for c in ["order_pairs_defined", "decode_calls", "pairs_sharing_a_key_as_documented", "composite_pairs_defined", "composite_decode_calls", "sql_order_index_plans", "sql_lookup_index_plans", "sql_unique_accepts", "sql_unique_rejects_of_equal_values", "sql_composite_index_plans", "encode_value_dispatch_checked", "valuekey_agreement_checked"] {
@@ -2223,7 +2204,6 @@ impl Check for C26 {
     }
 
     fn replay(&self, ctx: &Ctx, case: &Value, rep: &mut Reporter) {
-        apply_opts(ctx);
         let tier = match case["tier"].as_str() {
             Some("thorough") => Tier::Thorough,
             Some("quick") => Tier::Quick,
